@@ -601,6 +601,80 @@ func TestC20(t *testing.T) {
 			}
 			c.Ev.MarkExhaustive("every C0 control character except CR/LF and 15 further control / format / noncharacter code points: alone, first on a line, last on a line, doubled, inside a string, inside a comment, between ordinary lines")
 		})
+		// lines cut off anywhere: every prefix and every suffix (by code point) of token-rich lines, between
+		// ordinary lines and as the very last line without a newline.  Whatever such a line is — valid, lexically
+		// or syntactically broken — the session goes on and the ordinary lines are answered as usual.
+		c.Sub("truncated-lines", func(s *Sub) {
+			P := bn.KwPrint
+			pool := []string{
+				P + " ১২.৫ + 3.25;",
+				P + " \"str\" + \"ing\";",
+				bn.KwVar + " v = [1.5, 2]; v[0];",
+				P + " 7 ** 2 >= 3 && !" + bn.KwFalse + ";",
+				P + " 1 << 2 != 8 >> 1; // c",
+				P + " 1; /* c */ " + P + " 2.0;",
+				bn.KwFun + " f(a) { " + bn.KwReturn + " a.k; } " + P + " f({k: 1.5});",
+				P + " " + bn.BLen + "([1, 2]) <= 2 " + bn.KwOr + " nil;",
+				"({a: 1}).a == 1.0;",
+				bn.KwIf + " (1 < 2.5) " + P + " \"y\"; " + bn.KwElse + " " + P + " \"n\";",
+				bn.KwFor + " (" + bn.KwVar + " i = 0; i < 2; i = i + 1) " + P + " i * 0.5;",
+				"৩.১৪;",
+			}
+			var k int64
+			for li, full := range pool {
+				rs := []rune(full)
+				var cuts []string
+				for n := 1; n < len(rs); n++ {
+					cuts = append(cuts, string(rs[:n]))
+				}
+				for n := 1; n < len(rs); n++ {
+					cuts = append(cuts, string(rs[n:]))
+				}
+				k++
+				if c.Mine(k) {
+					// all cuts of the line in one session, an ordinary line after each
+					var lines []string
+					for i, cut := range cuts {
+						lines = append(lines, cut, fmt.Sprintf("%d + 1000;", i))
+					}
+					parts, status, raw, ok := c.c20Session(lines, true)
+					c.Ev.EnumCase("truncated-lines", true, func() string { return "all cuts of: " + full }, "truncated-lines")
+					bad := ""
+					switch {
+					case !ok:
+						bad = "the session did not end within 30 s"
+					case status != 0:
+						bad = fmt.Sprintf("the session ended with status %d", status)
+					case len(parts) != len(lines)+2:
+						bad = fmt.Sprintf("%d lines must be answered by %d prompts, got %d", len(lines), len(lines)+1, len(parts)-1)
+					}
+					if bad == "" {
+						for i := range cuts {
+							if want := fmt.Sprintf("%d\n", i+1000); parts[2*i+2] != want {
+								bad = fmt.Sprintf("the ordinary line after the cut %q answered %q instead of %q", cuts[i], parts[2*i+2], want)
+								break
+							}
+						}
+					}
+					if bad != "" {
+						s.Violation(Replay{Check: "builtin-session", Sig: "truncated-line-session", Source: strings.Join(lines, "\n"), Note: fmt.Sprintf("cuts of pool line %d: %s", li, bad), Observed: fmt.Sprintf("status=%d output=%q", status, clip(raw, 600))})
+					}
+				}
+				for _, cut := range cuts {
+					k++
+					if !c.Mine(k) || strings.TrimSpace(cut) == "" {
+						continue
+					}
+					lines := []string{"1000 + 1;", cut}
+					parts, status, raw, ok := c.c20Session(lines, false)
+					c.Ev.EnumCase("truncated-lines", true, func() string { return "last line, no newline: " + cut }, "truncated-last-line")
+					if !ok || status != 0 || len(parts) != 4 || parts[1] != "1001\n" {
+						s.Violation(Replay{Check: "builtin-session", Sig: "truncated-last-line", Source: strings.Join(lines, "\n"), Note: fmt.Sprintf("a session whose last line is %q without a newline must answer both lines, show 3 prompts and end with status 0", cut), Observed: fmt.Sprintf("status=%d output=%q", status, clip(raw, 600))})
+					}
+				}
+			}
+			c.Ev.MarkExhaustive(fmt.Sprintf("every proper prefix and suffix (by code point) of %d token-rich lines, inside a session and as its unterminated last line", len(pool)))
+		})
 		// every callee form with 0-3 arguments as a session line of its own (each line brings its own
 		// declarations): a failing call ends neither the session nor any later answer
 		c.Sub("callee-form-sessions", func(s *Sub) {
